@@ -416,3 +416,11 @@ for _p in ("C01", "C02", "C03", "C10", "C11", "C12", "C13"):
 m("c11-register-lock-across-hop", "C11", "O11.6", _LOCKFIX[0], (R + "meta_runner.py", "            for payload in payloads:\n                self._logger.debug(\n                    \"registering payload %s (%s)\", NameRepr(payload), NameRepr(flavour)\n                )\n                runner.register_payload(payload)\n", "            with self._registration_lock:\n                for payload in payloads:\n                    runner.register_payload(payload)\n"), (R + "meta_runner.py", "        return self._runners[flavour].run_payload(payload)", "        with self._registration_lock:\n            return self._runners[flavour].run_payload(payload)"))
 m("revert-fix-C12-stale-runners", "C12", "O12.4", (R + "meta_runner.py", "            self.running.clear()\n            # all runners have ended: registrations for the next run are queued again\n            self._runners.clear()\n", "            self.running.clear()\n"))
 m("revert-fix-C01-stale-runners", "C01", "O1.10", (R + "meta_runner.py", "            self.running.clear()\n            # all runners have ended: registrations for the next run are queued again\n            self._runners.clear()\n", "            self.running.clear()\n"))
+
+# ------------------------------------------------------------------ from the second mutation sweep (HEAD 3b2c27f)
+m("c03-sweep-failure-swallowed", "C03", "O3.7", (R + "service.py", '            self._logger.exception("%s aborted", self.__class__.__name__)\n            raise\n', '            self._logger.exception("%s aborted", self.__class__.__name__)\n'))
+m("c03-queue-never-cleared", "C03", "O3.1", (R + "meta_runner.py", "            queue.clear()\n        self._runner_queues.clear()\n", "            pass\n"))
+m("c05-tail-template-not-constructed", "C05", "O5.3", ("src/cobald/daemon/core/config.py", "                        prev_item = prev_item.__construct__()\n", "                        pass\n"))
+m("c13-splitext-index", "C13", "O13.3", ("src/cobald/daemon/core/config.py", '    elif os.path.splitext(config_path)[1] == ".py":', '    elif os.path.splitext(config_path)[2] == ".py":'))
+m("c18-merge-value-fix-reverted", "C18", "O18.7", ("src/cobald/daemon/core/config.py", '    def flatten_mapping(self, node):\n        # PyYAML splices the content of ``<<`` values into ``node`` without ever\n        # looking at their tags: reject here what is rejected at any other position\n        for key_node, value_node in node.value:\n            if key_node.tag == "tag:yaml.org,2002:merge":\n                merged = (\n                    value_node.value\n                    if isinstance(value_node, SequenceNode)\n                    else [value_node]\n                )\n                for merged_node in merged:\n                    if (\n                        isinstance(merged_node, MappingNode)\n                        and merged_node.tag not in self.yaml_constructors\n                    ):\n                        self.construct_undefined(merged_node)\n        super().flatten_mapping(node)\n', ""))
+m("c18-merge-value-check-inverted", "C18", "O18.7", ("src/cobald/daemon/core/config.py", "                        self.construct_undefined(merged_node)\n", "                        pass\n"))
